@@ -171,6 +171,7 @@ theorem step_bound (code : Code) (lim : Limits) (s : VMState) (i : RInstr) (sp :
     case hostCall name =>
       by_cases hshape : ∃ argc o rest, s.stack = ⟨.int argc, o⟩ :: rest
       · obtain ⟨argc, o, rest, hs⟩ := hshape
+        have hr : hostResults name ≤ 1 := by unfold hostResults; split <;> omega
         refine (step_hostCall code lim s name sp argc o rest hs).mono ?_ ?_ ?_
         · rintro s' ⟨h1, h2, h3, h4⟩
           exact ⟨by rw [hs]; simp [maxPush]; omega, by rw [h3]; simp, fun hok => MemOK_of_keeps hok h4⟩
